@@ -153,13 +153,22 @@ class _OwnProxy:
     def refute(self, func, node, construct, msg):
         if func is not None and func.cls in ('_PredecessorsList', '_SuccessorsList') and msg.startswith('_list is written outside'):
             return None        # the wrapped list is a dependency list: C01's subject, neither ids nor WBS membership depend on it
-        # (a base-class helper that only the dependency lists call - C01-r43's _TaskList._unlink - is still reported: that entry is on
-        #  record as caught by C05/C11 in meta.json; dropping it here needs the record to be refreshed first)
+        if func is not None and func.cls in ('_TaskList', '_ImmutableTaskList') and msg.startswith('_list is written outside') and \
+                self._callers(func) and all(c.cls in ('_PredecessorsList', '_SuccessorsList') for c in self._callers(func)):
+            return None        # a base-class helper that only the dependency lists use
         if func is not None and (msg.startswith('__predecessors is written outside') or msg.startswith('__successors is written outside')):
             return None
         if func is not None and msg.startswith("attribute store with a computed name") and func.cls == 'Task' and \
                 func.name.startswith('__') and not func.name.endswith('__') and self._only_ctor_callers(func):
             return self._o.site(func, node, "dynamic attribute store in a private helper of the constructor / clone")
+        if func is not None and msg.startswith("attribute store with a computed name") and isinstance(node, ast.Call) and \
+                isinstance(node.func, ast.Name) and node.func.id in ('setattr', 'delattr') and len(node.args) >= 2 and isinstance(node.args[1], ast.Name):
+            # the builtin spelling setattr(task, key, value): the name is the SECOND argument
+            key = node.args[1].id
+            for t, q in facts.node_conditions(self._ctx.prog, func, node, self._ctx.typer, expand=True):
+                t2, q2 = facts.norm_cond(t, q)
+                if match(f"{key}.startswith('_')", t2) and not q2:
+                    return self._o.site(func, node, "dynamic attribute store limited to public names")
         if func is not None and msg.startswith("attribute store with a computed name") and isinstance(node, ast.Call) and node.args and \
                 isinstance(node.args[0], ast.Name):
             # the guard `not key.startswith('_')` may sit behind a hoisted local (`is_own = key.startswith('_'); if is_own: .. else: <store>`):
